@@ -313,9 +313,15 @@ func (w *Walker) inlinable(fr *frame, c *ssa.Call) *ssa.Function {
 	}
 	for _, b := range callee.Blocks {
 		for _, in := range b.Instrs {
-			switch in.(type) {
-			case *ssa.Defer, *ssa.Go, *ssa.RunDefers, *ssa.Select:
+			switch x := in.(type) {
+			case *ssa.Go:
 				return nil
+			case *ssa.Defer:
+				// a deferred call in an inlined helper is recorded where it is registered; it runs at the helper's
+				// return, which still precedes everything the caller does afterwards. Deferred closures are not followed.
+				if _, isClosure := x.Call.Value.(*ssa.MakeClosure); isClosure {
+					return nil
+				}
 			}
 		}
 	}
